@@ -148,16 +148,27 @@ func T(name interface{}) time.Time {
 }
 
 // TN projects a time to the symbol of the same INSTANT (the zone is not part of the
-// abstract value: XEP-0082 recommends UTC on the wire and decoders may return any zone).
-// time.Time{} projects to T_zero.
+// abstract value: XEP-0082 recommends UTC on the wire and decoders may return any zone):
+// the symbol of that instant in UTC if there is one (InstOf of tla/Stanza.tla), otherwise
+// the only symbol of that instant.  time.Time{} projects to T_zero.
 func TN(t time.Time) string {
 	if t.IsZero() {
 		return "T_zero"
 	}
+	var same []string
 	for n, u := range sym.times {
 		if n != "T_zero" && u.Equal(t) {
-			return n
+			if sym.Time[n][2] == 0 {
+				return n
+			}
+			same = append(same, n)
 		}
+	}
+	if len(same) == 1 {
+		return same[0]
+	}
+	if len(same) > 1 {
+		return "?Tambiguous" + t.UTC().Format(time.RFC3339Nano)
 	}
 	return "?T" + t.UTC().Format(time.RFC3339Nano)
 }
